@@ -127,7 +127,15 @@ func runC07(c *Ctx) {
 		}
 		for _, a := range []struct{ short, fn string }{{"eio", "serverSocket.upgradeTo"}, {"eio", "clientSocket.finishUpgradeTo"}} {
 			fn := p.Fn(a.short, a.fn)
-			cs := CallsTo(Calls(fn), `\(\*transport\.Callbacks\)\.Set`)
+			all := CallsTo(Calls(fn), `\(\*transport\.Callbacks\)\.Set`)
+			// a Set(nil, nil) on the branch that refuses the transport because the socket is closed mutes the candidate: not the swap
+			var cs []CallSite
+			for _, x := range all {
+				if Term(x.Arg(0)) == "nil" && Term(x.Arg(1)) == "nil" {
+					continue
+				}
+				cs = append(cs, x)
+			}
 			ok := len(cs) == 1 && strings.Contains(Term(cs[0].Arg(0)), "onPacket") && strings.Contains(Term(cs[0].Arg(1)), "onTransportClose")
 			c.Ob("C07-D3", a.short+"."+a.fn+"/installs-socket-callbacks", fn.Pos(), ok, "the swap must install the socket's onPacket and onTransportClose on the new transport")
 		}
@@ -263,6 +271,9 @@ func runC07(c *Ctx) {
 			c.Ob("C07-D7", "eio.Server.maybeUpgrade/upgradeTo-synchronous", mu.Pos(), false, "maybeUpgrade never calls upgradeTo")
 		}
 	}
+
+	c.Rule("C07-D9", "an upgrade that finishes after the session closed is refused (F57, shared with C06-D12)", 3)
+	closedSocketAdoptsNoTransport(c, "C07-D9")
 
 	c.Rule("C07-D8", "packets are handed to the current transport under the lock: the transport's Send is called on the transport field itself while transportMu is read-held (both sockets, including the client's batcher) — "+
 		"a Send that picked the transport earlier and enqueues after upgradeTo has drained the old queue is lost", 2)
@@ -402,6 +413,10 @@ func swapRegion(c *Ctx, rule string) {
 				var extra []string
 				for _, g := range GuardTerms(cs[0].Instr) {
 					if strings.Contains(g, "Type") || strings.Contains(g, "idx<") {
+						continue
+					}
+					// "the socket has not been closed meanwhile" (non-blocking look at closeChan) is the one legitimate condition
+					if strings.HasPrefix(g, "(select@") && strings.HasSuffix(g, "== 0)==false") {
 						continue
 					}
 					extra = append(extra, g)
